@@ -10,8 +10,6 @@ def Rep.own : Rep → Option (Nat × Nat)
   | .inline .. => none
   | .heap id cap _ _ => some (id, cap)
 
-theorem Slot.own_rep (r : Rep) : (Slot.rep r).own = r.own := by cases r <;> rfl
-
 /-- the representation invariant (`mx` = `Buffer::MAX_CAPACITY`) -/
 def Rep.Canon (mx : Nat) : Rep → Prop
   | .inline lo hi code neg =>
